@@ -335,14 +335,19 @@ package consensus
 
 // signAddVote signs through signVote with exactly the type and block hash it was given, and does not write the round
 // state (it queues the signed vote for the node itself).
+// votesSigned counts the calls of signAddVote (ghost): a step function calls it at most once.
+//@ ghost var votesSigned int
 //@ func State.signAddVote
-//@   assigns except(consensus.State, cstypes, types, sm), walSyncedForSign
+//@   assigns except(consensus.State, cstypes, types, sm), walSyncedForSign, votesSigned
+//@   sets votesSigned = old(votesSigned) + 1 when true
 //@   atcall State.signVote same: arg1 == msgType && arg2 == hash
 
 // Precommit: entered at most once per height and round (the guard), signs exactly one precommit, and a precommit for a
 // block only under a polka for that block in this very round with the block validated and locked in this round.
 //@ func State.enterPrecommit
-//@   assigns except(types.Vote), walFresh, walSyncedForSign, lastBasicOK, lastCommitVerified
+//@   ensures stepmono: (cs.RoundState.Height == old(cs.RoundState.Height) && cs.RoundState.Round == old(cs.RoundState.Round)) ==> cs.RoundState.Step >= old(cs.RoundState.Step)
+//@   ensures one: votesSigned <= old(votesSigned) + 1
+//@   assigns except(types.Vote), walFresh, walSyncedForSign, lastBasicOK, lastCommitVerified, votesSigned
 //@   requires cur: cs.RoundState.Height != height || round <= cs.RoundState.Round
 //@   ensures stepped: old(cs.RoundState.Height == height && cs.RoundState.Round <= round && !(cs.RoundState.Round == round && 6 <= cs.RoundState.Step)) ==> (cs.RoundState.Round == round && cs.RoundState.Step == 6)
 //@   ensures idle: old(cs.RoundState.Height != height || round < cs.RoundState.Round || (cs.RoundState.Round == round && 6 <= cs.RoundState.Step)) ==> (cs.RoundState.Step == old(cs.RoundState.Step) && cs.RoundState.Round == old(cs.RoundState.Round) && cs.RoundState.LockedRound == old(cs.RoundState.LockedRound) && cs.RoundState.LockedBlock == old(cs.RoundState.LockedBlock))
@@ -357,13 +362,18 @@ package consensus
 // Prevote: entered at most once per height and round; while locked, the only prevote signed is for the locked block;
 // a block that is not the locked one is prevoted only after ValidateBlock accepted it.
 //@ func State.defaultDoPrevote
+//@   assigns except(consensus.State, types.Vote), walSyncedForSign, votesSigned, lastBasicOK, lastCommitVerified
+//@   ensures one: votesSigned <= old(votesSigned) + 1
 //@   atcall State.signAddVote kind: arg1 == 1
 //@   atcall State.signAddVote locked: cs.RoundState.LockedBlock != nil ==> arg2 == types.Block.Hash(cs.RoundState.LockedBlock)
 //@   atcall State.signAddVote valid: (cs.RoundState.LockedBlock == nil && len(arg2) != 0) ==> (arg2 == types.Block.Hash(cs.RoundState.ProposalBlock) && blockValidated(cs.RoundState.ProposalBlock, cs.state.Validators, cs.state.LastBlockHeight))
 //@ extern State.doPrevote
-//@   assigns except(consensus.State, cstypes, types, sm)
+//@   assigns except(consensus.State, types.Vote), votesSigned
+//@   ensures one: votesSigned <= old(votesSigned) + 1
 //@ func State.enterPrevote
-//@   assigns except(types.Vote), walFresh, walSyncedForSign, lastBasicOK, lastCommitVerified
+//@   ensures stepmono: (cs.RoundState.Height == old(cs.RoundState.Height) && cs.RoundState.Round == old(cs.RoundState.Round)) ==> cs.RoundState.Step >= old(cs.RoundState.Step)
+//@   ensures one: votesSigned <= old(votesSigned) + 1
+//@   assigns except(types.Vote), walFresh, walSyncedForSign, lastBasicOK, lastCommitVerified, votesSigned
 //@   requires cur: cs.RoundState.Height != height || round <= cs.RoundState.Round
 //@   ensures stepped: old(cs.RoundState.Height == height && cs.RoundState.Round <= round && !(cs.RoundState.Round == round && 4 <= cs.RoundState.Step)) ==> (cs.RoundState.Round == round && cs.RoundState.Step == 4)
 //@   ensures idle: old(cs.RoundState.Height != height || round < cs.RoundState.Round || (cs.RoundState.Round == round && 4 <= cs.RoundState.Step)) ==> (cs.RoundState.Step == old(cs.RoundState.Step) && cs.RoundState.Round == old(cs.RoundState.Round))
@@ -384,7 +394,9 @@ package consensus
 //@ extern State.decideProposal
 //@   assigns except(consensus.State, cstypes, types, sm)
 //@ func State.enterPropose
-//@   assigns except(types.Vote), walFresh, walSyncedForSign, lastBasicOK, lastCommitVerified
+//@   ensures stepmono: (cs.RoundState.Height == old(cs.RoundState.Height) && cs.RoundState.Round == old(cs.RoundState.Round)) ==> cs.RoundState.Step >= old(cs.RoundState.Step)
+//@   ensures one: votesSigned <= old(votesSigned) + 1
+//@   assigns except(types.Vote), walFresh, walSyncedForSign, lastBasicOK, lastCommitVerified, votesSigned
 //@   atcall State.scheduleTimeout cur: arg2 == cs.RoundState.Height && arg3 == cs.RoundState.Round
 //@   requires cur: cs.RoundState.Height != height || round <= cs.RoundState.Round
 //@   ensures stepped: old(cs.RoundState.Height == height && cs.RoundState.Round <= round && !(cs.RoundState.Round == round && 3 <= cs.RoundState.Step)) ==> (cs.RoundState.Round == round && (cs.RoundState.Step == 3 || cs.RoundState.Step == 4))
@@ -439,7 +451,9 @@ package consensus
 //@ extern cfg.ConsensusConfig.WaitForTxs
 //@   assigns nothing
 //@ func State.enterNewRound
-//@   assigns except(types.Vote), walFresh, walSyncedForSign, lastBasicOK, lastCommitVerified
+//@   ensures stepmono: (cs.RoundState.Height == old(cs.RoundState.Height) && cs.RoundState.Round == old(cs.RoundState.Round)) ==> cs.RoundState.Step >= old(cs.RoundState.Step)
+//@   ensures one: votesSigned <= old(votesSigned) + 1
+//@   assigns except(types.Vote), walFresh, walSyncedForSign, lastBasicOK, lastCommitVerified, votesSigned
 //@   atcall State.scheduleTimeout cur: arg2 == cs.RoundState.Height && arg3 == cs.RoundState.Round
 //@   ensures sameH: cs.RoundState.Height == old(cs.RoundState.Height)
 //@   ensures reached: old(cs.RoundState.Height) == height ==> cs.RoundState.Round >= round
@@ -447,20 +461,26 @@ package consensus
 //@   ensures lockkept: cs.RoundState.LockedRound == old(cs.RoundState.LockedRound) && cs.RoundState.LockedBlock == old(cs.RoundState.LockedBlock)
 //@   ensures votes: cs.RoundState.Votes == old(cs.RoundState.Votes)
 //@ func State.enterPrevoteWait
-//@   assigns except(types.Vote), walFresh, walSyncedForSign, lastBasicOK, lastCommitVerified
+//@   ensures stepmono: (cs.RoundState.Height == old(cs.RoundState.Height) && cs.RoundState.Round == old(cs.RoundState.Round)) ==> cs.RoundState.Step >= old(cs.RoundState.Step)
+//@   ensures nosign: votesSigned == old(votesSigned)
+//@   assigns except(types.Vote), walFresh, walSyncedForSign, lastBasicOK, lastCommitVerified, votesSigned
 //@   requires cur: cs.RoundState.Height != height || round <= cs.RoundState.Round
 //@   atcall State.scheduleTimeout cur: arg2 == cs.RoundState.Height && arg3 == cs.RoundState.Round
 //@   ensures same: cs.RoundState.Height == old(cs.RoundState.Height) && cs.RoundState.Round >= old(cs.RoundState.Round) && cs.RoundState.Votes == old(cs.RoundState.Votes)
 //@   ensures lockkept: cs.RoundState.LockedRound == old(cs.RoundState.LockedRound) && cs.RoundState.LockedBlock == old(cs.RoundState.LockedBlock)
 //@ func State.enterPrecommitWait
-//@   assigns except(types.Vote), walFresh, walSyncedForSign, lastBasicOK, lastCommitVerified
+//@   ensures stepmono: (cs.RoundState.Height == old(cs.RoundState.Height) && cs.RoundState.Round == old(cs.RoundState.Round)) ==> cs.RoundState.Step >= old(cs.RoundState.Step)
+//@   ensures nosign: votesSigned == old(votesSigned)
+//@   assigns except(types.Vote), walFresh, walSyncedForSign, lastBasicOK, lastCommitVerified, votesSigned
 //@   requires cur: cs.RoundState.Height != height || round <= cs.RoundState.Round
 //@   atcall State.scheduleTimeout cur: arg2 == cs.RoundState.Height && arg3 == cs.RoundState.Round
 //@   ensures same: cs.RoundState.Height == old(cs.RoundState.Height) && cs.RoundState.Round == old(cs.RoundState.Round) && cs.RoundState.Votes == old(cs.RoundState.Votes)
 //@   ensures lockkept: cs.RoundState.LockedRound == old(cs.RoundState.LockedRound) && cs.RoundState.LockedBlock == old(cs.RoundState.LockedBlock)
 //@ func State.enterCommit
 //@   trusted
-//@   assigns except(types.Vote), walFresh, walSyncedForSign, lastBasicOK, lastCommitVerified
+//@   ensures stepmono: (cs.RoundState.Height == old(cs.RoundState.Height) && cs.RoundState.Round == old(cs.RoundState.Round)) ==> cs.RoundState.Step >= old(cs.RoundState.Step)
+//@   ensures nosign: votesSigned == old(votesSigned)
+//@   assigns except(types.Vote), walFresh, walSyncedForSign, lastBasicOK, lastCommitVerified, votesSigned
 //@   ensures monoH: cs.RoundState.Height >= old(cs.RoundState.Height)
 //@   ensures lockkept: cs.RoundState.Height == old(cs.RoundState.Height) ==> (cs.RoundState.Round == old(cs.RoundState.Round) && cs.RoundState.Votes == old(cs.RoundState.Votes) && cs.RoundState.LockedRound == old(cs.RoundState.LockedRound) && cs.RoundState.LockedBlock == old(cs.RoundState.LockedBlock))
 
@@ -490,6 +510,7 @@ package consensus
 //@ spec func polkaHash(cs *State, r int32) []byte = types.VoteSet.TwoThirdsMajority(cstypes.HeightVoteSet.Prevotes(cs.RoundState.Votes, r)).Hash
 //@ func State.addVote
 //@   requires vote: vote != nil
+//@   ensures order: cs.RoundState.Height == old(cs.RoundState.Height) ==> (cs.RoundState.Round > old(cs.RoundState.Round) || (cs.RoundState.Round == old(cs.RoundState.Round) && cs.RoundState.Step >= old(cs.RoundState.Step)))
 //@   atcall EventBus.PublishEventUnlock justified: vote.Type == 1 && polka(cs, vote.Round) && old(cs.RoundState.LockedRound) < vote.Round && vote.Round <= cs.RoundState.Round && old(cs.RoundState.LockedBlock) != nil && !types.Block.HashesTo(old(cs.RoundState.LockedBlock), polkaHash(cs, vote.Round)) && cs.RoundState.LockedBlock == nil && cs.RoundState.LockedRound == -1
 //@   ensures lockrule: (cs.RoundState.Height == old(cs.RoundState.Height) && result1 == nil) ==> ((cs.RoundState.LockedRound == old(cs.RoundState.LockedRound) && cs.RoundState.LockedBlock == old(cs.RoundState.LockedBlock))
 //@     | || (cs.RoundState.LockedRound == -1 && cs.RoundState.LockedBlock == nil && polka(cs, vote.Round) && !types.Block.HashesTo(old(cs.RoundState.LockedBlock), polkaHash(cs, vote.Round)))
